@@ -23,7 +23,7 @@ TITLE = "Stochastic reconfiguration is an unbiased, weight-conserving comb"
 
 TIERS = {
     "quick": dict(runs=8000, budget_s=150, recheck=4, shrink_s=60.0),
-    "thorough": dict(runs=400000, budget_s=1800, recheck=16, shrink_s=180.0),
+    "thorough": dict(runs=400000, budget_s=1200, recheck=16, shrink_s=180.0),
 }
 
 RULE = (
@@ -164,6 +164,15 @@ def gen_cfg(seed, index, tier):
 
 def group_of(cfg):
     return f"{cfg['container']}-R{cfg['R']}-n{cfg['n']}"
+
+
+def group_of_index(seed, index, tier):
+    # the first three draws of gen_cfg
+    rng = random.Random(seed)
+    R = rng.choice([1, 2, 2, 3, 3, 4])
+    n = rng.choice([1, 2, 3, 4, 6, 8])
+    container = rng.choice(["restricted", "unrestricted"])
+    return f"{container}-R{R}-n{n}"
 
 
 # ------------------------------------------------------------------ tags
